@@ -57,6 +57,9 @@ pub struct Compiler<'a> {
     upvalues: Vec<Upvalues>,
     scope_depth: Vec<i32>,
     current_index: CardIndex,
+    /// handle of the function being compiled (unique in the whole program, unlike the function
+    /// index inside `current_index`, which restarts in every module)
+    current_function: Handle,
     function_id: usize,
 }
 
@@ -119,6 +122,7 @@ impl<'a> Compiler<'a> {
             upvalues: vec![Default::default()],
             scope_depth: vec![0],
             current_index: CardIndex::default(),
+            current_function: Handle::default(),
             current_imports: Default::default(),
             function_id: 0,
         }
@@ -327,9 +331,11 @@ impl<'a> Compiler<'a> {
             cards,
             namespace,
             imports,
+            handle,
             ..
         }: &'a FunctionIr,
     ) -> CompilationResult<()> {
+        self.current_function = *handle;
         self.current_namespace = Cow::Borrowed(namespace);
         self.current_imports = Cow::Borrowed(imports);
 
@@ -792,8 +798,10 @@ impl<'a> Compiler<'a> {
 
                 self.compile_begin();
                 const CLOSURE_MASK: u64 = 0xEFEFEFEF;
-                let function_handle =
-                    self.current_index.as_handle() + Handle::from_u64(CLOSURE_MASK);
+                // the card index alone repeats in every module: mix in the enclosing function
+                let function_handle = self.current_index.as_handle()
+                    + Handle::from_u64(CLOSURE_MASK)
+                    + self.current_function;
                 let arity = embedded_function.arguments.len() as u32;
                 let handle = u32::try_from(self.program.bytecode.len())
                     .expect("bytecode length to fit into 32 bits");
